@@ -487,6 +487,24 @@ pub fn gen(r: &mut Rng) -> (Program, World) {
     if g.r.chance(1, 4) {
         t.references.push(("refd".into(), E::UtxoRef(hx(&[0x77; 32]), g.r.below(3))));
     }
+    // chain-specific directives (their lowering is part of the model: `LangAdhoc`): a donation of an integer
+    // expression, script witnesses
+    if g.r.chance(1, 4) {
+        // (a positive amount: a literal, a positive parameter, or their sum)
+        let coin = match g.r.below(3) {
+            0 => E::Num(g.r.range(1, 5000)),
+            1 => E::Id("quantity".into()),
+            _ => E::Add(Box::new(E::Id("quantity".into())), Box::new(E::Num(g.r.range(1, 9)))),
+        };
+        t.adhoc.push(("treasury_donation".into(), vec![("coin".into(), coin)]));
+    }
+    if g.r.chance(1, 6) {
+        t.adhoc.push(("native_witness".into(), vec![("script".into(), E::Hex("820181820400".into()))]));
+    }
+    if g.r.chance(1, 6) {
+        let v = 1 + g.r.below(3) as i64;
+        t.adhoc.push(("plutus_witness".into(), vec![("version".into(), E::Num(v)), ("script".into(), E::Hex("5101010023259800a518a4d136564004ae69".into()))]));
+    }
     drop(g);
 
     // the ledger state: one UTxO per party, rich enough
